@@ -195,6 +195,7 @@ def native_error_race(runs=30, good=400, bad=8, timeout=20):
 
 
 def run_cli_half(rep, tier):
+    run_configs(rep, tier)
     viol = protocol(rep)
     race = [v for v in viol if v["kind"] == "walker-panics-after-collector-stops"]
     viol = [v for v in viol if v not in race]
@@ -224,7 +225,11 @@ def run_cli_half(rep, tier):
             rep.inconc("engine mismatch (cli protocol): %s, but the real binary finished with exit code %s on 150 files" % (v, rc))
 
 
-def replay_cli(kind=True):
+def replay_cli(kind=True, cfg=None):
+    if cfg is not None:
+        pan, rc, err = native_config(cfg[0], cfg[1], cfg[2])
+        print("panicked=%s rc=%s %s" % (pan, rc, err))
+        return 1 if pan else 0
     if kind == "race":
         hits, done, line = native_error_race()
         print("panicked in %d of %d runs: %s" % (hits, done, line))
@@ -232,3 +237,131 @@ def replay_cli(kind=True):
     finished, rc = native_many_files()
     print("finished=%s rc=%s" % (finished, rc))
     return 0 if finished else 1
+
+
+# ---------------------------------------------------------------------------------------------------------------------------
+# configurations: every language with every relevant package / prefix / module-name option empty or given
+
+CFG_OPTS = {"Swift": ["swift_prefix"], "Kotlin": ["kotlin_prefix", "java_package", "kotlin_module_name"], "Scala": ["scala_package", "scala_module_name"],
+            "Go": ["go_package"], "TypeScript": [], "Python": []}
+BH_NAME = {"Swift": "swift", "Kotlin": "kotlin", "Scala": "scala", "Go": "go", "TypeScript": "typescript", "Python": "python"}
+
+
+def config_cases():
+    import itertools
+    out = []
+    for lang, opts in CFG_OPTS.items():
+        for lens in itertools.product((0, 2), repeat=len(opts)):
+            for multi in (False, True):
+                out.append((lang, multi, lens))
+    return out
+
+
+def case_config(case):
+    """override_configuration -> language() -> generate_types from MIR under the given effective option lengths (characters
+    symbolic over [a-z.]): no panic path may be feasible; an Err (diagnostic) is fine"""
+    from checks import c20
+    from checks.pcommon import finish_case
+    from vlib.mirsym.engine import new_interp
+    from vlib.mirsym.ir import IR
+    from vlib.mirsym.values import EnumV, Ref, RString, unbox
+    from vlib.mirsym import bharness
+    from vlib.mirsym.interp import Panic, Unsupported
+    lang, multi, lens = case
+    P = c20.prog()
+    L = P.layout
+    I = new_interp(P)
+    res = {"paths": 0, "violations": [], "case": [lang, multi, list(lens)]}
+    opts = CFG_OPTS[lang]
+
+    def syms():
+        return {o: [z3.BitVec("o%d_%d" % (k, i), 32) for i in range(n)] for k, (o, n) in enumerate(zip(opts, lens))}
+
+    def entry(I):
+        sy = syms()
+        for cs in sy.values():
+            for c in cs:
+                I.assume(z3.Or(z3.And(z3.UGE(c, 97), z3.ULE(c, 122)), c == 46))
+        table = {o[0]: o for o in c20.OPTIONS}
+        cfg = c20.mk_config(I, L, [(table[o][1], table[o][2], sy[o]) for o in opts], [])
+        args = c20.mk_args(I, L, {}, c20.LANG_OF[lang])
+        r = I.call_static("override_configuration", [cfg, Ref([args], 0)])
+        if r.variant != 0:
+            return "err"
+        sl = EnumV("typeshare_core::language::SupportedLanguage", L.enums["SupportedLanguage"].index(lang), [])
+        lg = unbox(I.call_static("language", [sl, r.fields[0], multi]))
+        ir = IR(P.layout)
+        u8, u32 = ir.special("U8"), ir.special("U32")
+        pd = ir.parsed_data(structs=[ir.struct("Sa", [ir.field("fa", u32), ir.field("fb", ir.special("Option", ir.simple("Ub")))])],
+                            enums=[ir.enum_unit("Ub", [ir.v_unit("Va"), ir.v_unit("Vb")]),
+                                   ir.enum_alg("Dc", [ir.v_unit("Va"), ir.v_tuple("Vb", u32), ir.v_anon("Vc", [ir.field("x", u8)])], tag="t", content="c")],
+                            aliases=[ir.alias("Ad", ir.vec(u8))], crate="app" if multi else "", file_name="app.x" if multi else "", multi_file=multi)
+        ok, w, _ = bharness.generate(I, BH_NAME[lang], pd, lang_value=lg)
+        return "ok" if ok else "err"
+
+    try:
+        for kind, out, pc in I.explore(entry, max_paths=200):
+            res["paths"] += 1
+            if kind == "panic":
+                m = I.sat_model(z3.BoolVal(True))
+                vals = {o: "".join(chr(m.eval(c, model_completion=True).as_long()) for c in cs) for o, cs in syms().items()}
+                res["violations"].append({"kind": "panic", "msg": out.msg, "options": vals})
+    except Unsupported as e:
+        if "budget exhausted" in str(e) or "call depth exceeded" in str(e):
+            res["violations"].append({"kind": "divergence", "msg": str(e)[:120], "options": {}})
+        else:
+            raise
+    return finish_case(I, res)
+
+
+def native_config(lang, multi, options):
+    """the real binary with a typeshare.toml holding the options; returns (panicked?, rc, first stderr lines)"""
+    import os, shutil, subprocess, tempfile
+    from checks import c20
+    from vlib.harness import build_clidrv
+    exe = build_clidrv()
+    d = tempfile.mkdtemp(prefix="c07c-")
+    try:
+        os.makedirs(os.path.join(d, "app", "src"))
+        open(os.path.join(d, "app", "src", "lib.rs"), "w").write("#[typeshare]\npub struct Sa { pub fa: u32, pub fb: Option<Ub> }\n#[typeshare]\npub enum Ub { Va, Vb }\n"
+                                                                  "#[typeshare]\n#[serde(tag = \"t\", content = \"c\")]\npub enum Dc { Va, Vb(u32), Vc { x: u8 } }\n#[typeshare]\npub type Ad = Vec<u8>;\n")
+        table = {o[0]: o for o in c20.OPTIONS}
+        secs = {}
+        for o, v in options.items():
+            secs.setdefault(table[o][1], []).append('%s = "%s"' % (table[o][2], v))
+        open(os.path.join(d, "typeshare.toml"), "w").write("".join("[%s]\n%s\n" % (s, "\n".join(kv)) for s, kv in secs.items()))
+        env = dict(os.environ); env.pop("VERIF_DRIVER", None); env["RUST_BACKTRACE"] = "0"
+        out = ["-d", "outd"] if multi else ["-o", "out.x"]
+        p = subprocess.run([exe, "app", "--lang", c20.LANG_OF[lang].lower()] + out, cwd=d, env=env, capture_output=True, text=True, timeout=60)
+        pan = p.returncode == 101 or "panicked at" in p.stderr
+        return pan, p.returncode, " ".join(l.strip() for l in p.stderr.split("\n") if l.strip() and "INFO" not in l)[:300]
+    finally:
+        shutil.rmtree(d, ignore_errors=True)
+
+
+def run_configs(rep, tier):
+    from vlib.harness import pmap
+    cases = config_cases()
+    rep.harnesses["cli-configs"] = len(cases)
+    rep.bounds["cli configurations"] = "override_configuration -> language() -> generate_types from MIR for 6 languages x single/folder mode x each of the language's prefix / package / module-name options empty or 2 symbolic characters over [a-z.] (file values, no CLI options)"
+    rep.functions.update(["override_configuration", "language"])
+    seen = set()
+    for st, case, r in pmap(("checks.c07cli", "case_config"), cases):
+        rep.obligations += 1
+        if st != "ok":
+            rep.inconc("cli config %s: %s" % (case, r)); continue
+        rep.states += r["paths"]; rep.queries += r.get("queries", 0); rep.discharged += 1
+        for v in r["violations"]:
+            lang, multi, lens = case
+            empties = sorted(o for o, n in zip(CFG_OPTS[lang], lens) if n == 0)
+            sig = {"group": "cli-config", "lang": lang, "kind": v["kind"], "empty": empties, "msg": v["msg"][:60]}
+            key = (lang, v["kind"], v["msg"][:60])
+            if key in seen:
+                continue
+            seen.add(key)
+            pan, rc, err = native_config(lang, multi, v.get("options", {}))
+            rep.validated += 1
+            if pan:
+                rep.violation(sig, "typeshare --lang %s (%s) with options %s: %s" % (lang.lower(), "folder" if multi else "file", v.get("options"), err), {"cli_config": [lang, multi, v.get("options", {})]})
+            else:
+                rep.inconc("engine mismatch (cli config) %s: interpreter %s, real binary exit %s: %s" % (case, v, rc, err))
